@@ -264,3 +264,34 @@ End XStep.
 Definition owner_is (t : tid) (o : owner) : bool :=
   match o with Heap t' => Nat.eqb t' t | Cache t' => Nat.eqb t' t | Transit => false end.
 Definition mine (t : tid) (l : list ref) : list ref := filter (fun r => owner_is t (fst r)) l.
+
+(* ---- once-cells whose candidate value depends on the initialising thread -------------------------------------
+   A cell inside a FROZEN shared value that is filled on first use (`OnceLock::set` from `get_or_init_ty`, reached from
+   `export_as(variable_name)` on every top-level assignment, also of a frozen value loaded from another module) is a
+   once-cell whose candidate is computed by the calling thread from ITS OWN data (the name of its variable).  The step
+   relation below is `step` with a per-thread initialiser `initT t`; `step` itself is the case where the initialiser
+   does not depend on the thread (`Globals::standard`, a methods table, the hash of a string: the same value whoever
+   computes it).  Proofs.v / Properties/C20.v separate the two situations: thread-independent initialisers are
+   unobservable (per-thread transcript = alone transcript, every schedule), thread-dependent ones are observable. *)
+Section TStep.
+  Variable initT : tid -> cell -> val.
+
+  Definition tstep (t : tid) (o : op) (s : state) : option (state * list ev) := step (initT t) t o s.
+
+  Fixpoint trun (tr : list (tid * op)) (s : state) : option (state * list (tid * ev)) :=
+    match tr with
+    | [] => Some (s, [])
+    | (t, o) :: tr' =>
+        match tstep t o s with
+        | None => None
+        | Some (s1, ob) =>
+            match trun tr' s1 with
+            | None => None
+            | Some (s2, obs) => Some (s2, map (pair t) ob ++ obs)
+            end
+        end
+    end.
+End TStep.
+
+(* the condition: whoever initialises computes the same value *)
+Definition thread_independent (initT : tid -> cell -> val) : Prop := forall t1 t2 x, initT t1 x = initT t2 x.
